@@ -331,7 +331,13 @@ def rule_t6(ctx):
     rep.floor('try blocks around upstream lookups', n, 3)
 
 
+def rule_wr(ctx):
+    """ds.catch(E) / ds.filter(f): the exception selection and the predicate reach the stage that applies them"""
+    K.api_wiring(ctx, 'WR', only=('catch', 'filter'), floor=2)
+
+
 def run(ctx):
+    rule_wr(ctx)
     rule_t6(ctx)
     rule_catch(ctx)
     rule_fp(ctx)
